@@ -11,7 +11,7 @@ import os
 import shutil
 import tempfile
 
-from mcx import core, explore, fakes, space
+from mcx import core, explore, fakes, space, refcodec as R
 
 PROP = 'C06'
 CHAL = [b'chal-0', b'chal-1', b'chal-2', b'chal-3']
@@ -822,6 +822,40 @@ def _task_framing(task):
                           % (n, 'terminated' if terminated else
                              'unterminated', t.disconnecting, answered),
                           {'part': 'framing'}, size=1)
+    # a peer that pipelines: BEGIN and a lot of message bytes (more than
+    # the line limit, which is about lines) in one read - it is
+    # authenticated and its bytes are messages
+    from mcx.checks import c04
+    for nbytes in (10000, 16384, 20000, 70000):
+        for split in (False, True):
+            p, t = c04.make_server()
+            big = R.encode_message(
+                1, 2, {'path': '/org/freedesktop/DBus', 'member': 'AddMatch',
+                       'interface': 'org.freedesktop.DBus',
+                       'destination': 'org.freedesktop.DBus'}, 's',
+                ['x' * nbytes])
+            hello = R.encode_message(
+                1, 1, {'path': '/org/freedesktop/DBus', 'member': 'Hello',
+                       'interface': 'org.freedesktop.DBus',
+                       'destination': 'org.freedesktop.DBus'})
+            res.count('transitions')
+            try:
+                if split:
+                    p.dataReceived(b'\0AUTH ANONYMOUS\r\n')
+                    p.dataReceived(b'BEGIN\r\n' + hello + big)
+                else:
+                    p.dataReceived(b'\0AUTH ANONYMOUS\r\nBEGIN\r\n' + hello
+                                   + big)
+                state = (t.disconnecting, p.auth_calls, len(p.got))
+            except Exception as e:
+                state = ('raised %r' % (e,),)
+            if state != (False, 1, 2):
+                res.violation('%s/framing/pipelined-after-begin' % PROP,
+                              'BEGIN followed in the same read by %d bytes of '
+                              'messages: (closed, authenticated, messages '
+                              'delivered) = %r, expected (False, 1, 2)'
+                              % (len(hello + big), state),
+                              {'part': 'framing'}, size=1)
     # differential: any cut of the stream gives the same transcript
     depth = 2 if quick else 3
     pool = [LINES[i] for i in (1, 2, 3, 5, 6, 7, 8, 10, 11, 12, 13)]
